@@ -142,7 +142,7 @@ func Start(response http.ResponseWriter, request *http.Request, createIfNew bool
 				if err != nil {
 					return nil, err
 				}
-			} else if age >= SessionIDExpiry+SessionIDGracePeriod {
+			} else if age >= SessionIDExpiry && age-SessionIDExpiry >= SessionIDGracePeriod {
 				// Grace period expired. Remove this session.
 				if err = sessions.Delete(id); err != nil {
 					return nil, fmt.Errorf("Could not delete session with expired ID: %s", err)
@@ -525,7 +525,8 @@ func (s *Session) Expired() bool {
 	defer s.RUnlock()
 	return s.referenceID != "" && time.Since(s.lastAccess) >= SessionIDGracePeriod ||
 		time.Since(s.lastAccess) >= SessionExpiry &&
-			time.Since(s.created) >= SessionIDExpiry+SessionIDGracePeriod
+			time.Since(s.created) >= SessionIDExpiry &&
+			time.Since(s.created)-SessionIDExpiry >= SessionIDGracePeriod
 }
 
 // LastAccess returns the time this session was last accessed.
